@@ -14,7 +14,8 @@ run_demo() { # $1 seed dir, prints PASS/FAIL/ERROR
     local extra=""; grep -q "fopenmp" $d/demo.cpp && extra="-fopenmp"
     sed "s#/tmp/seed_[A-Za-z0-9]*#$WT#g" $d/demo.cpp > $WT/demo_src.cpp   # demos may embed the path of the tree they were developed in
     g++ -std=c++17 -O1 $extra $WT/demo_src.cpp $INC $LIB -o $WT/demo_bin > $WT/demo_build.log 2>&1 || { echo ERROR-BUILD; return; }
-    (cd $WT && timeout 600 ./demo_bin $WT/_build/Tasgrid/tasgrid > $WT/demo_out.log 2>&1); local rc=$?
+    local arg=""; case "$d" in */C16-*) arg="$WT/_build/Tasgrid/tasgrid";; esac   # (only the tasgrid demonstrations take the tool path as argument)
+    (cd $WT && timeout 600 ./demo_bin $arg > $WT/demo_out.log 2>&1); local rc=$?
   else
     sed "s#/tmp/seed_[A-Za-z0-9]*#$WT#g" $d/demo.sh > $WT/demo_run.sh; (cd $WT && timeout 600 bash $WT/demo_run.sh > $WT/demo_out.log 2>&1); local rc=$?
   fi
